@@ -4,11 +4,13 @@ package props
 // and fail loudly if the behaviour returns).
 
 import (
+	"fmt"
 	"math/big"
 	"strings"
 	"testing"
 	"time"
 
+	v120 "github.com/chain4energy/c4e-chain/app/upgrades/v120"
 	cfedistributor "github.com/chain4energy/c4e-chain/x/cfedistributor"
 	distrtypes "github.com/chain4energy/c4e-chain/x/cfedistributor/types"
 	mintertypes "github.com/chain4energy/c4e-chain/x/cfeminter/types"
@@ -17,6 +19,7 @@ import (
 	cfevesting "github.com/chain4energy/c4e-chain/x/cfevesting"
 	vestingtypes "github.com/chain4energy/c4e-chain/x/cfevesting/types"
 	sdk "github.com/cosmos/cosmos-sdk/types"
+	authvesting "github.com/cosmos/cosmos-sdk/x/auth/vesting/types"
 )
 
 type tFailer struct{ t *testing.T }
@@ -215,4 +218,37 @@ func TestRegressC11NodeFlags(t *testing.T) {
 		}
 	}
 	StatsFor("C11").Case(true, "regress: node-local crisis flags")
+}
+
+// TestRegressUpgradeTimeZone (finding F-UPGRADETZ, fixed): the v1.2.0 upgrade moved the schedules of
+// the four founders' vesting accounts by a year on the calendar of the node's local time zone, so
+// nodes in different zones stored different schedules (29 Feb 12:00 UTC is already 1 March on
+// Kiritimati; the last days of March have another daylight-saving status a year later in Warsaw).
+func TestRegressUpgradeTimeZone(t *testing.T) {
+	starts := []time.Time{time.Date(2024, 2, 29, 12, 0, 0, 0, time.UTC), time.Date(2023, 3, 28, 12, 0, 0, 0, time.UTC)}
+	for _, start := range starts {
+		v := NewVestWorld(nil)
+		for _, a := range c16FounderAccounts {
+			makeCVA(v, mustAddr(a), sdk.NewCoins(sdk.NewInt64Coin(Denom, 1_000_000)), start.Unix(), start.Unix()+400*86400, sdk.NewCoins())
+		}
+		run := func(zone string) (out []int64) {
+			c, _ := v.Ctx.CacheContext()
+			InTimeZone(zone, func() {
+				if err := v120.ModifyVestingAccountsState(c, v.App); err != nil {
+					t.Fatal(err)
+				}
+			})
+			for _, a := range c16FounderAccounts {
+				cva := v.App.AccountKeeper.GetAccount(c, mustAddr(a)).(*authvesting.ContinuousVestingAccount)
+				out = append(out, cva.StartTime, cva.EndTime)
+			}
+			return out
+		}
+		want := run("")
+		for _, z := range NodeTimeZones[1:] {
+			if got := run(z); fmt.Sprint(got) != fmt.Sprint(want) {
+				t.Fatalf("schedules starting %s: a node in %s stores %v, a node in UTC %v", start, z, got, want)
+			}
+		}
+	}
 }
